@@ -627,6 +627,19 @@ func TestVerifC17Compile(t *testing.T) {
 		}
 		ops = append(ops, fmt.Sprintf("z %s %d %s", which, max, c17Hex(in)))
 	}
+	if shard == 0 { // the exact boundary: a domain set in the last slot (accepted) and one past it (rejected)
+		for _, which := range []string{"r", "q", "s"} {
+			for _, idx := range []int{max - 1, max} {
+				fn, v, dom, out := "port", "80", "domain", "direct"
+				if which != "r" {
+					fn, v, dom, out = "qtype", "a", "qname", "reject"
+				}
+				in := "routing {\n  " + fn + "(" + strings.TrimSuffix(strings.Repeat(v+", ", idx), ", ") + ") -> " + out + "\n  " + dom + "(full: x.com) -> " + out + "\n}\n"
+				ops = append(ops, fmt.Sprintf("z %s %d %s", which, max, c17Hex(in)))
+				stats.Inc(fmt.Sprintf("z.boundary.domain-set-at-index-%d", idx))
+			}
+		}
+	}
 	nzOps := len(ops)
 
 	np := VEnvInt("VERIF_C17_PIPELINE_N", 600)
